@@ -258,7 +258,8 @@ class StochasticEvents:
             )
             if "capacity_fn" in battery_params_input:
                 cap_fn: CapFnCallable = battery_params_input["capacity_fn"]
-                cap, init = cap_fn(energy_delivered, duration, voltage, period)
+                # The capacity function takes the stay in periods (duration is in hours).
+                cap, init = cap_fn(energy_delivered, departure - arrival, voltage, period)
             else:
                 cap = energy_delivered
                 init = 0
